@@ -209,6 +209,9 @@ pub fn expected_response(
             h.insert(k.clone(), v.clone());
         }
     }
+    if let Some(n) = headers.get("resp-pad").and_then(|s| s.parse::<usize>().ok()) {
+        h.insert("pad".to_string(), "p".repeat(n));
+    }
     let body = match headers.get("resp-len").and_then(|s| s.parse::<usize>().ok()) {
         Some(n) => pattern_body(crate::explore::fnv(route.as_bytes()) ^ n as u64, n),
         None => body.clone(),
